@@ -159,26 +159,37 @@ fn main() {
     run.extra("shapes", json!(shapes.iter().map(|s| s.src.clone()).collect::<Vec<_>>()));
     run.extra("value_alphabet_size", json!(nv));
 
-    // ------------------------------------------------------------ shape self-test (supervisor)
-    if run.is_supervisor() {
-        let mut broken = vec![];
-        for s in &shapes {
+    // ------------------------------------------------------------ shape self-test
+    // (a family like any other: the supervisor itself never runs the subject)
+    run.family(
+        Family::new("shape-self-test", shapes.len() as u64, "every shape with its well-typed defaults").timeout(20.0),
+        |item, acc: &mut Acc| {
+            let s = &shapes[item as usize];
             let prog = s.program();
-            match build(&prog) {
+            let verdict = match build(&prog) {
                 Ok(t) => {
                     let ctx = bind(&s.defaults);
                     let r = engine::render(&t, &prog.entry, &ctx);
-                    if !r.is_ok() {
-                        broken.push(format!("{} -> {}", s.src, r.show()));
-                    }
+                    if r.is_ok() { None } else { Some(r.show()) }
                 }
-                Err(e) => broken.push(format!("{} -> add failed {}", s.src, e.show())),
+                Err(e) => Some(format!("add failed {}", e.show())),
+            };
+            match verdict {
+                None => acc.case(true, "renders-with-defaults"),
+                Some(why) => {
+                    acc.case(true, "broken-shape");
+                    acc.count(&format!("broken-shape|{}|{}", s.src, why), 1);
+                }
             }
-        }
+        },
+    );
+    if run.is_supervisor() {
+        let broken = run.outcome("shape-self-test", "broken-shape");
+        let fine = run.outcome("shape-self-test", "renders-with-defaults");
         run.guard(
             "every-shape-renders-with-its-defaults",
-            broken.is_empty(),
-            format!("{} of {} shapes do not render Ok with well-typed defaults: {:?}", broken.len(), shapes.len(), broken),
+            broken == 0 && fine > 0,
+            format!("{broken} of {} shapes do not render Ok with well-typed defaults (see the `broken-shape|…` counters of family shape-self-test)", shapes.len()),
         );
     }
 
